@@ -188,3 +188,452 @@ theorem parseAccrual_sound {text : Bytes} {s : St} {a : Accrual} {s' : St} (h : 
   simp [viewAccrual, r8, e2, e4, e6, e8, AccrualT.bytes]
 
 end Knut.Syntax
+
+namespace Knut.Syntax
+open Knut.Utf8 Knut.Spec.Syntax
+set_option linter.unusedVariables false
+
+theorem perfLoop_sound {text : Bytes} {start : Nat} {acc : List Commodity} {s : St} {ts : List Commodity} {s' : St}
+    (h : perfLoop start acc s = .ok ts s') (hG : Good text s) (hv : HeadValid s.toks)
+    (accT : List (List Tok)) (hacc : acc.reverse.mapM (fun (c : Commodity) => c.range.extract text) = some (accT.map flat))
+    (hok : ∀ t ∈ accT, CommodityOK t) :
+    ∃ tsT : List (List Tok), ts.mapM (fun (c : Commodity) => c.range.extract text) = some (tsT.map flat) ∧
+      (∀ t ∈ tsT, CommodityOK t) ∧ HeadValid s'.toks ∧ Good text s' := by
+  fun_induction perfLoop start acc s generalizing accT with
+  | case1 acc s hc =>
+    injection h with h1 h2
+    subst h1 h2
+    exact ⟨accT, hacc, hok, hv, hG⟩
+  | case2 acc s hc e s1 h1 => cases h
+  | case3 acc s hc x s1 h1 e s2 h2 => cases h
+  | case4 acc s hc x s1 h1 y s2 h2 e s3 h3 => cases h
+  | case5 acc s hc x s1 h1 y s2 h2 c s3 h3 e s4 h4 => cases h
+  | case6 acc s hc x s1 h1 y s2 h2 c s3 h3 z s4 h4 ih =>
+    obtain ⟨t1, k1, _, _, v1⟩ := readCharacter_okV h1
+    obtain ⟨_, k2, _, _, v2, _, _⟩ := readWhile_okV h2 v1
+    obtain ⟨c3, k3, a3, w3, v3, r3, _⟩ := parseCommodity_sound h3 v2
+    obtain ⟨_, k4, _, _, v4, _, _⟩ := readWhile_okV h4 v3
+    obtain ⟨_, G1⟩ := hG.extract k1
+    obtain ⟨_, G2⟩ := G1.extract k2
+    obtain ⟨e3, G3⟩ := G2.extract k3
+    obtain ⟨_, G4⟩ := G3.extract k4
+    refine ih h G4 v4 (accT ++ [c3]) ?_ ?_
+    · subst r3
+      simp only [List.reverse_cons, List.mapM_append, hacc, List.mapM_cons, e3, List.mapM_nil, List.map_append,
+        List.map_cons, List.map_nil]
+      rfl
+    · intro t ht
+      rcases List.mem_append.mp ht with ht | ht
+      · exact hok t ht
+      · simp only [List.mem_singleton] at ht; subst ht; exact ⟨a3, w3⟩
+
+theorem parsePerformance_sound {text : Bytes} {s : St} {p : Performance} {s' : St} (h : parsePerformance s = .ok p s')
+    (hG : Good text s) (hv : HeadValid s.toks) :
+    ∃ tsT : List (List Tok), p.targets.mapM (fun (c : Commodity) => c.range.extract text) = some (tsT.map flat) ∧
+      (∀ t ∈ tsT, CommodityOK t) ∧ HeadValid s'.toks ∧ Good text s' ∧ p.range = ⟨s.off, s'.off⟩ := by
+  have hr := (parsePerformance_ok h).1
+  unfold parsePerformance at h
+  simp only [Res.bind_eq_ok] at h
+  obtain ⟨_, s1, h1, _, s2, h2, first, s3, h3, ts, s4, h4, _, s5, h5, h⟩ := h
+  injection h with hp hs
+  subst hs
+  obtain ⟨t1, k1, _, _, v1⟩ := readCharacter_okV h1
+  obtain ⟨_, k2, _, _, v2, _, _⟩ := readWhile_okV h2 v1
+  obtain ⟨_, G1⟩ := hG.extract k1
+  obtain ⟨_, G2⟩ := G1.extract k2
+  have hfirst : ∃ fT : List (List Tok), first.reverse.mapM (fun (c : Commodity) => c.range.extract text) = some (fT.map flat) ∧
+      (∀ t ∈ fT, CommodityOK t) ∧ HeadValid s3.toks ∧ Good text s3 := by
+    split at h3
+    · simp only [Res.bind_eq_ok] at h3
+      obtain ⟨c, t1, g1, _, t2, g2, g3⟩ := h3
+      injection g3 with ga gb
+      subst ga gb
+      obtain ⟨c3, k3, a3, w3, v3, r3, _⟩ := parseCommodity_sound g1 v2
+      obtain ⟨_, k4, _, _, v4, _, _⟩ := readWhile_okV g2 v3
+      obtain ⟨e3, G3⟩ := G2.extract k3
+      obtain ⟨_, G4⟩ := G3.extract k4
+      subst r3
+      exact ⟨[c3], by simp [e3], by intro t ht; simp only [List.mem_singleton] at ht; subst ht; exact ⟨a3, w3⟩, v4, G4⟩
+    · injection h3 with ga gb
+      subst ga gb
+      exact ⟨[], by simp, by simp, v2, G2⟩
+  obtain ⟨fT, f1, f2, v3, G3⟩ := hfirst
+  obtain ⟨tsT, t1', t2', v4, G4⟩ := perfLoop_sound h4 G3 v3 fT f1 f2
+  obtain ⟨_, k5, _, _, v5⟩ := readCharacter_okV h5
+  obtain ⟨_, G5⟩ := G4.extract k5
+  refine ⟨tsT, by rw [← hp]; exact t1', t2', v5, G5, hr⟩
+
+/-- the annotations collected so far, with their token views -/
+def PerfRel (text : Bytes) (perf : Performance) : Option (List (List Tok)) → Prop
+  | none => perf.range.empty = true
+  | some ts => perf.range.empty = false ∧
+      perf.targets.mapM (fun (c : Commodity) => c.range.extract text) = some (ts.map flat) ∧ ∀ t ∈ ts, CommodityOK t
+
+def AccrRel (text : Bytes) (accr : Accrual) : Option AccrualT → Prop
+  | none => accr.range.empty = true
+  | some a => accr.range.empty = false ∧ viewAccrual text accr = some a.bytes ∧ a.ok
+
+theorem consumed_width_pos {text : Bytes} {s s' : St} {c : List Tok} (hG : Good text s) (hc : Consumed s c s')
+    (hne : c ≠ []) : s.off < s'.off := by
+  have := hG.wsum_pos hc hne
+  have := hc.2
+  omega
+
+theorem addonStep_sound {text : Bytes} {start : Nat} {perf : Performance} {accr : Accrual} {r0 : Nat} {kw : String}
+    {s : St} {p' : Performance} {a' : Accrual} {s' : St} {pT : Option (List (List Tok))} {aT : Option AccrualT}
+    (h : addonStep start perf accr ⟨r0, s.off⟩ kw s = .ok (p', a') s') (hG : Good text s) (hv : HeadValid s.toks)
+    (hr0 : r0 < s.off) (hp : PerfRel text perf pT) (ha : AccrRel text accr aT) :
+    ∃ pT' aT', PerfRel text p' pT' ∧ AccrRel text a' aT' ∧ HeadValid s'.toks ∧ Good text s' := by
+  unfold addonStep at h
+  simp only at h
+  split at h
+  · split at h
+    · cases h
+    · simp only [Res.bind_eq_ok] at h
+      obtain ⟨p, s1, g1, g2⟩ := h
+      injection g2 with ga gb
+      injection ga with ga1 ga2
+      subst gb ga2
+      obtain ⟨tsT, t1, t2, v1, G1, pr⟩ := parsePerformance_sound g1 hG hv
+      have o1 := (parsePerformance_fwd _).2 _ _ g1
+      refine ⟨some tsT, aT, ?_, ha, v1, G1⟩
+      rw [← ga1]
+      refine ⟨?_, t1, t2⟩
+      simp only [pr, extend_kw (Nat.le_of_lt hr0) o1, Range.empty, beq_eq_false_iff_ne]
+      omega
+  · split at h
+    · split at h
+      · cases h
+      · simp only [Res.bind_eq_ok] at h
+        obtain ⟨a, s1, g1, g2⟩ := h
+        injection g2 with ga gb
+        injection ga with ga1 ga2
+        subst gb ga1
+        obtain ⟨aT', ok', view', v1, G1⟩ := parseAccrual_sound g1 hG hv
+        have o1 := (parseAccrual_fwd _).2 _ _ g1
+        have pr := (parseAccrual_ok g1).1
+        refine ⟨pT, some aT', hp, ?_, v1, G1⟩
+        rw [← ga2]
+        refine ⟨?_, ?_, ok'⟩
+        · simp only [pr, extend_kw (Nat.le_of_lt hr0) o1, Range.empty, beq_eq_false_iff_ne]
+          omega
+        · simpa [viewAccrual] using view'
+    · injection h with ga gb
+      injection ga with ga1 ga2
+      subst gb ga1 ga2
+      exact ⟨pT, aT, hp, ha, hv, hG⟩
+
+theorem addonsLoop_sound {text : Bytes} {start : Nat} {perf : Performance} {accr : Accrual} {s : St} {a : Addons} {s' : St}
+    {pT : Option (List (List Tok))} {aT : Option AccrualT}
+    (h : addonsLoop start perf accr s = .ok a s') (hG : Good text s) (hv : HeadValid s.toks)
+    (hp : PerfRel text perf pT) (ha : AccrRel text accr aT) :
+    ∃ pT' aT', PerfRel text a.performance pT' ∧ AccrRel text a.accrual aT' ∧ HeadValid s'.toks ∧ Good text s' := by
+  fun_induction addonsLoop start perf accr s generalizing pT aT with
+  | case1 perf accr s e s1 h1 => cases h
+  | case2 perf accr s r kw s1 h1 e s2 h2 => cases h
+  | case3 perf accr s r kw s1 h1 perf' accr' s2 h2 e s3 h3 => cases h
+  | case4 perf accr s r kw s1 h1 perf' accr' s2 h2 x s3 h3 hc =>
+    obtain ⟨hm, c, kc, hrunes, hr, vc, v1⟩ := readAlternative_okV h1 hv
+    subst hr
+    obtain ⟨_, G1⟩ := hG.extract kc
+    have hne : c ≠ [] := by
+      intro e; subst e
+      simp only [List.mem_cons, List.not_mem_nil, or_false] at hm
+      rcases hm with rfl | rfl <;> simp [runesOf] at hrunes
+    have hlt := consumed_width_pos hG kc hne
+    obtain ⟨pT', aT', hp', ha', v2, G2⟩ := addonStep_sound h2 G1 v1 hlt hp ha
+    obtain ⟨_, k3, v3⟩ := readRest_okV h3 v2
+    obtain ⟨_, G3⟩ := G2.extract k3
+    injection h with h1' h2'
+    subst h2'
+    rw [← h1']
+    exact ⟨pT', aT', hp', ha', v3, G3⟩
+  | case5 perf accr s r kw s1 h1 perf' accr' s2 h2 x s3 h3 hc ih =>
+    obtain ⟨hm, c, kc, hrunes, hr, vc, v1⟩ := readAlternative_okV h1 hv
+    subst hr
+    obtain ⟨_, G1⟩ := hG.extract kc
+    have hne : c ≠ [] := by
+      intro e; subst e
+      simp only [List.mem_cons, List.not_mem_nil, or_false] at hm
+      rcases hm with rfl | rfl <;> simp [runesOf] at hrunes
+    have hlt := consumed_width_pos hG kc hne
+    obtain ⟨pT', aT', hp', ha', v2, G2⟩ := addonStep_sound h2 G1 v1 hlt hp ha
+    obtain ⟨_, k3, v3⟩ := readRest_okV h3 v2
+    obtain ⟨_, G3⟩ := G2.extract k3
+    exact ih h G3 v3 hp' ha'
+
+theorem bookingsLoop_sound {text : Bytes} {start : Nat} {acc : List Booking} {s : St} {bs : List Booking} {s' : St}
+    (h : bookingsLoop start acc s = .ok bs s') (hG : Good text s) (hv : HeadValid s.toks)
+    (accT : List BookingT) (hacc : acc.reverse.mapM (viewBooking text) = some (accT.map BookingT.bytes))
+    (hok : ∀ b ∈ accT, b.ok) :
+    ∃ bsT : List BookingT, bsT ≠ [] ∧ bs.mapM (viewBooking text) = some (bsT.map BookingT.bytes) ∧ (∀ b ∈ bsT, b.ok) ∧
+      HeadValid s'.toks ∧ Good text s' := by
+  fun_induction bookingsLoop start acc s generalizing accT with
+  | case1 acc s e s1 h1 => cases h
+  | case2 acc s b s1 h1 e s2 h2 => cases h
+  | case3 acc s b s1 h1 x s2 h2 hc =>
+    obtain ⟨bT, ok1, view1, v1, G1⟩ := parseBooking_sound h1 hG hv
+    obtain ⟨_, k2, v2⟩ := readRest_okV h2 v1
+    obtain ⟨_, G2⟩ := G1.extract k2
+    injection h with ha hb
+    subst ha hb
+    refine ⟨accT ++ [bT], by simp, ?_, ?_, v2, G2⟩
+    · simp only [List.reverse_cons, List.mapM_append, hacc, List.mapM_cons, view1, List.mapM_nil, List.map_append,
+        List.map_cons, List.map_nil]
+      rfl
+    · intro t ht
+      rcases List.mem_append.mp ht with ht | ht
+      · exact hok t ht
+      · simp only [List.mem_singleton] at ht; subst ht; exact ok1
+  | case4 acc s b s1 h1 x s2 h2 hc ih =>
+    obtain ⟨bT, ok1, view1, v1, G1⟩ := parseBooking_sound h1 hG hv
+    obtain ⟨_, k2, v2⟩ := readRest_okV h2 v1
+    obtain ⟨_, G2⟩ := G1.extract k2
+    refine ih h G2 v2 (accT ++ [bT]) ?_ ?_
+    · simp only [List.reverse_cons, List.mapM_append, hacc, List.mapM_cons, view1, List.mapM_nil, List.map_append,
+        List.map_cons, List.map_nil]
+      rfl
+    · intro t ht
+      rcases List.mem_append.mp ht with ht | ht
+      · exact hok t ht
+      · simp only [List.mem_singleton] at ht; subst ht; exact ok1
+
+theorem balancesLoop_sound {text : Bytes} {start : Nat} {acc : List Balance} {s : St} {bs : List Balance} {s' : St}
+    (h : balancesLoop start acc s = .ok bs s') (hG : Good text s) (hv : HeadValid s.toks)
+    (accT : List BalanceT) (hacc : acc.reverse.mapM (viewBalance text) = some (accT.map BalanceT.bytes))
+    (hok : ∀ b ∈ accT, b.ok) :
+    ∃ bsT : List BalanceT, bsT ≠ [] ∧ bs.mapM (viewBalance text) = some (bsT.map BalanceT.bytes) ∧ (∀ b ∈ bsT, b.ok) ∧
+      HeadValid s'.toks ∧ Good text s' := by
+  fun_induction balancesLoop start acc s generalizing accT with
+  | case1 acc s e s1 h1 => cases h
+  | case2 acc s b s1 h1 e s2 h2 => cases h
+  | case3 acc s b s1 h1 x s2 h2 hc =>
+    obtain ⟨bT, ok1, view1, v1, G1⟩ := parseBalance_sound h1 hG hv
+    obtain ⟨_, k2, v2⟩ := readRest_okV h2 v1
+    obtain ⟨_, G2⟩ := G1.extract k2
+    injection h with ha hb
+    subst ha hb
+    refine ⟨accT ++ [bT], by simp, ?_, ?_, v2, G2⟩
+    · simp only [List.reverse_cons, List.mapM_append, hacc, List.mapM_cons, view1, List.mapM_nil, List.map_append,
+        List.map_cons, List.map_nil]
+      rfl
+    · intro t ht
+      rcases List.mem_append.mp ht with ht | ht
+      · exact hok t ht
+      · simp only [List.mem_singleton] at ht; subst ht; exact ok1
+  | case4 acc s b s1 h1 x s2 h2 hc ih =>
+    obtain ⟨bT, ok1, view1, v1, G1⟩ := parseBalance_sound h1 hG hv
+    obtain ⟨_, k2, v2⟩ := readRest_okV h2 v1
+    obtain ⟨_, G2⟩ := G1.extract k2
+    refine ih h G2 v2 (accT ++ [bT]) ?_ ?_
+    · simp only [List.reverse_cons, List.mapM_append, hacc, List.mapM_cons, view1, List.mapM_nil, List.map_append,
+        List.map_cons, List.map_nil]
+      rfl
+    · intro t ht
+      rcases List.mem_append.mp ht with ht | ht
+      · exact hok t ht
+      · simp only [List.mem_singleton] at ht; subst ht; exact ok1
+
+end Knut.Syntax
+
+namespace Knut.Syntax
+open Knut.Utf8 Knut.Spec.Syntax
+set_option linter.unusedVariables false
+
+theorem parseTransaction_sound {text : Bytes} {start : Nat} {date : Date} {addons : Addons} {s : St} {t : Transaction}
+    {s' : St} (h : parseTransaction start date addons s = .ok t s') (hG : Good text s) (hv : HeadValid s.toks)
+    {dT : List Tok} (hd : date.range.extract text = some (flat dT)) (hdo : DateOK dT)
+    {pT : Option (List (List Tok))} {aT : Option AccrualT}
+    (hp : PerfRel text addons.performance pT) (ha : AccrRel text addons.accrual aT) :
+    ∃ v : DirT, v.ok ∧ viewTransaction text t = some v.bytes ∧ HeadValid s'.toks ∧ Good text s' := by
+  unfold parseTransaction at h
+  simp only [Res.bind_eq_ok] at h
+  obtain ⟨q, s1, h1, _, s2, h2, bs, s3, h3, h⟩ := h
+  injection h with ht hs
+  subst hs
+  obtain ⟨q1, c, q2, kq, p1, p2, ic, vq, v1, qr, qc⟩ := parseQuotedString_sound h1 hv
+  obtain ⟨_, G1⟩ := hG.extract kq
+  -- the content lies between the quotes
+  have hcontent : q.content.extract text = some (flat c) := by
+    have k1 : Consumed s [q1] ⟨s.off + q1.bytes.length, c ++ [q2] ++ s1.toks⟩ := ⟨by simpa using kq.1, by simp⟩
+    obtain ⟨_, Ga⟩ := hG.extract k1
+    have k2 : Consumed ⟨s.off + q1.bytes.length, c ++ [q2] ++ s1.toks⟩ c ⟨s.off + q1.bytes.length + wsum c, [q2] ++ s1.toks⟩ :=
+      ⟨by simp, rfl⟩
+    obtain ⟨e, _⟩ := Ga.extract k2
+    rw [qc]; exact e
+  obtain ⟨_, k2, v2⟩ := readRest_okV h2 v1
+  obtain ⟨_, G2⟩ := G1.extract k2
+  obtain ⟨bsT, hne, hb, hbo, v3, G3⟩ := bookingsLoop_sound h3 G2 v2 [] (by simp) (by simp)
+  have vc : Valid c := (vq.tail).left
+  refine ⟨.transaction aT pT dT c bsT, ?_, ?_, v3, G3⟩
+  · refine ⟨?_, ?_, hdo, ⟨ic, vc⟩, hne, hbo⟩
+    · intro a ea; subst ea; exact ha.2.2
+    · intro ts ets; subst ets; exact hp.2.2
+  · rw [← ht]
+    simp only [viewTransaction, DirT.bytes]
+    cases aT with
+    | none =>
+      simp only [AccrRel] at ha
+      cases pT with
+      | none => simp only [PerfRel] at hp; simp [ha, hp, hd, hcontent, hb]
+      | some ts => simp only [PerfRel] at hp; simp [ha, hp.1, hp.2.1, hd, hcontent, hb]
+    | some a =>
+      simp only [AccrRel] at ha
+      cases pT with
+      | none => simp only [PerfRel] at hp; simp [ha.1, ha.2.1, hp, hd, hcontent, hb]
+      | some ts => simp only [PerfRel] at hp; simp [ha.1, ha.2.1, hp.1, hp.2.1, hd, hcontent, hb]
+
+theorem parseDirective_sound {text : Bytes} {s : St} {d : Directive} {s' : St} (h : parseDirective s = .ok d s')
+    (hG : Good text s) (hv : HeadValid s.toks) :
+    ∃ v : DirT, v.ok ∧ viewDirective text d = some v.bytes ∧ HeadValid s'.toks ∧ Good text s' := by
+  unfold parseDirective at h
+  simp only [Res.bind_eq_ok] at h
+  obtain ⟨addons, s1, h1, body, s2, h2, h⟩ := h
+  injection h with hd hs
+  subst hs
+  -- the optional annotations
+  have hA : ∃ pT aT, PerfRel text addons.performance pT ∧ AccrRel text addons.accrual aT ∧ HeadValid s1.toks ∧ Good text s1 := by
+    split at h1
+    · simp only [Res.bind_eq_ok] at h1
+      obtain ⟨a, t1, g1, g2⟩ := h1
+      injection g2 with ga gb
+      subst ga gb
+      exact addonsLoop_sound (pT := none) (aT := none) g1 hG hv (by simp [PerfRel, Performance.zero, Range.empty, Range.zero])
+        (by simp [AccrRel, Accrual.zero, Range.empty, Range.zero])
+    · injection h1 with ga gb
+      subst ga gb
+      exact ⟨none, none, by simp [PerfRel, Addons.zero, Performance.zero, Range.empty, Range.zero],
+        by simp [AccrRel, Addons.zero, Accrual.zero, Range.empty, Range.zero], hv, hG⟩
+  obtain ⟨pT, aT, hp, ha, v1, G1⟩ := hA
+  rw [← hd]
+  unfold parseDirectiveBody at h2
+  simp only at h2
+  split at h2
+  · -- include
+    simp only [Res.bind_eq_ok] at h2
+    obtain ⟨i, t1, g1, g2⟩ := h2
+    injection g2 with ga gb
+    subst ga gb
+    unfold parseInclude at g1
+    simp only [Res.bind_eq_ok] at g1
+    obtain ⟨_, u1, k1, _, u2, k2, q, u3, k3, g1⟩ := g1
+    injection g1 with ga gb
+    subst ga gb
+    obtain ⟨_, c1, _, _, _, w1⟩ := readString_okV k1 v1
+    obtain ⟨_, c2, w2⟩ := readWhitespace1_okV k2 w1
+    obtain ⟨_, Ga⟩ := G1.extract c1
+    obtain ⟨_, Gb⟩ := Ga.extract c2
+    obtain ⟨q1, c, q2, kq, p1, p2, ic, vq, w3, qr, qc⟩ := parseQuotedString_sound k3 w2
+    obtain ⟨_, Gc⟩ := Gb.extract kq
+    have hcontent : q.content.extract text = some (flat c) := by
+      have k1' : Consumed u2 [q1] ⟨u2.off + q1.bytes.length, c ++ [q2] ++ u3.toks⟩ := ⟨by simpa using kq.1, by simp⟩
+      obtain ⟨_, Gx⟩ := Gb.extract k1'
+      have k2' : Consumed ⟨u2.off + q1.bytes.length, c ++ [q2] ++ u3.toks⟩ c ⟨u2.off + q1.bytes.length + wsum c, [q2] ++ u3.toks⟩ :=
+        ⟨by simp, rfl⟩
+      obtain ⟨e, _⟩ := Gx.extract k2'
+      rw [qc]; exact e
+    refine ⟨.include c, ⟨ic, (vq.tail).left⟩, ?_, w3, Gc⟩
+    simp [viewDirective, hcontent, DirT.bytes]
+  · simp only [Res.bind_eq_ok] at h2
+    obtain ⟨date, t1, g1, _, t2, g2, h2⟩ := h2
+    obtain ⟨dT, kd, idate, vdate, w1, rd⟩ := parseDate_sound g1 v1
+    obtain ⟨ed, Ga⟩ := G1.extract kd
+    obtain ⟨_, kw, w2⟩ := readWhitespace1_okV g2 w1
+    obtain ⟨_, Gb⟩ := Ga.extract kw
+    have hde : date.range.extract text = some (flat dT) := by rw [rd]; exact ed
+    split at h2
+    · -- transaction
+      simp only [Res.bind_eq_ok] at h2
+      obtain ⟨t, t3, g3, h2⟩ := h2
+      injection h2 with ga gb
+      subst ga gb
+      obtain ⟨v, vok, vview, w3, Gc⟩ := parseTransaction_sound g3 Gb w2 hde ⟨idate, vdate⟩ hp ha
+      exact ⟨v, vok, by simpa [viewDirective] using vview, w3, Gc⟩
+    · simp only [Res.bind_eq_ok] at h2
+      obtain ⟨⟨r, kw'⟩, t3, g3, _, t4, g4, h2⟩ := h2
+      obtain ⟨_, _, c3, _, _, _, w3⟩ := readAlternative_okV g3 w2
+      obtain ⟨_, Gc⟩ := Gb.extract c3
+      obtain ⟨_, c4, w4⟩ := readWhitespace1_okV g4 w3
+      obtain ⟨_, Gd⟩ := Gc.extract c4
+      unfold parseKeyword at h2
+      simp only at h2
+      split at h2
+      · -- open
+        simp only [Res.bind_eq_ok] at h2
+        obtain ⟨o, t5, g5, h2⟩ := h2
+        injection h2 with ga gb
+        subst ga gb
+        unfold parseOpen at g5
+        simp only [Res.bind_eq_ok] at g5
+        obtain ⟨acc, t6, g6, g5⟩ := g5
+        injection g5 with ga gb
+        subst ga gb
+        obtain ⟨cA, kA, iA, vA, w5, rA⟩ := parseAccount_sound g6 w4
+        obtain ⟨eA, Ge⟩ := Gd.extract kA
+        refine ⟨.open dT cA, ⟨⟨idate, vdate⟩, ⟨⟨_, iA⟩, vA⟩⟩, ?_, w5, Ge⟩
+        simp [viewDirective, hde, rA, eA, DirT.bytes]
+      · split at h2
+        · -- close
+          simp only [Res.bind_eq_ok] at h2
+          obtain ⟨o, t5, g5, h2⟩ := h2
+          injection h2 with ga gb
+          subst ga gb
+          unfold parseClose at g5
+          simp only [Res.bind_eq_ok] at g5
+          obtain ⟨acc, t6, g6, g5⟩ := g5
+          injection g5 with ga gb
+          subst ga gb
+          obtain ⟨cA, kA, iA, vA, w5, rA⟩ := parseAccount_sound g6 w4
+          obtain ⟨eA, Ge⟩ := Gd.extract kA
+          refine ⟨.close dT cA, ⟨⟨idate, vdate⟩, ⟨⟨_, iA⟩, vA⟩⟩, ?_, w5, Ge⟩
+          simp [viewDirective, hde, rA, eA, DirT.bytes]
+        · split at h2
+          · -- assertion
+            simp only [Res.bind_eq_ok] at h2
+            obtain ⟨a, t5, g5, h2⟩ := h2
+            injection h2 with ga gb
+            subst ga gb
+            unfold parseAssertion at g5
+            simp only at g5
+            split at g5
+            · simp only [Res.bind_eq_ok] at g5
+              obtain ⟨_, t6, g6, bs, t7, g7, g5⟩ := g5
+              injection g5 with ga gb
+              subst ga gb
+              obtain ⟨_, k6, w6⟩ := readRest_okV g6 w4
+              obtain ⟨_, Ge⟩ := Gd.extract k6
+              obtain ⟨bsT, hne, hb, hbo, w7, Gf⟩ := balancesLoop_sound g7 Ge w6 [] (by simp) (by simp)
+              refine ⟨.assertion dT bsT, ⟨⟨idate, vdate⟩, hne, hbo⟩, ?_, w7, Gf⟩
+              simp [viewDirective, hde, hb, DirT.bytes]
+            · simp only [Res.bind_eq_ok] at g5
+              obtain ⟨b, t6, g6, g5⟩ := g5
+              injection g5 with ga gb
+              subst ga gb
+              obtain ⟨bT, bok, bview, w6, Ge⟩ := parseBalance_sound g6 Gd w4
+              refine ⟨.assertion dT [bT], ⟨⟨idate, vdate⟩, by simp, by intro x hx; simp only [List.mem_singleton] at hx; subst hx; exact bok⟩, ?_, w6, Ge⟩
+              simp [viewDirective, hde, bview, DirT.bytes]
+          · -- price
+            simp only [Res.bind_eq_ok] at h2
+            obtain ⟨p, t5, g5, h2⟩ := h2
+            injection h2 with ga gb
+            subst ga gb
+            unfold parsePrice at g5
+            simp only [Res.bind_eq_ok] at g5
+            obtain ⟨c, u1, k1, _, u2, k2, pr, u3, k3, _, u4, k4, tg, u5, k5, g5⟩ := g5
+            injection g5 with ga gb
+            subst ga gb
+            obtain ⟨cC, kC, iC, vC, x1, rC, _⟩ := parseCommodity_sound k1 w4
+            obtain ⟨_, kW, x2⟩ := readWhitespace1_okV k2 x1
+            obtain ⟨cP, kP, iP, vP, x3, rP⟩ := parseDecimal_sound k3 x2
+            obtain ⟨_, kW2, x4⟩ := readWhitespace1_okV k4 x3
+            obtain ⟨cT, kT, iT, vT, x5, rT, _⟩ := parseCommodity_sound k5 x4
+            obtain ⟨eC, H1⟩ := Gd.extract kC
+            obtain ⟨_, H2⟩ := H1.extract kW
+            obtain ⟨eP, H3⟩ := H2.extract kP
+            obtain ⟨_, H4⟩ := H3.extract kW2
+            obtain ⟨eT, H5⟩ := H4.extract kT
+            subst rC rP rT
+            refine ⟨.price dT cC cP cT, ⟨⟨idate, vdate⟩, ⟨iC, vC⟩, ⟨iP, vP⟩, ⟨iT, vT⟩⟩, ?_, x5, H5⟩
+            simp [viewDirective, hde, eC, eP, eT, DirT.bytes]
+
+end Knut.Syntax
